@@ -19,6 +19,10 @@ func init() {
 			}
 		case *go9p.Conn:
 			key = o.Srv
+		case *go9p.SrvFid:
+			if o.Fconn != nil {
+				key = o.Fconn.Srv
+			}
 		case *go9p.Clnt:
 			key = o
 		}
